@@ -205,6 +205,41 @@ def host_late_answer_after_timeout(late: int, n: int) -> bool:
         return t2.done() and t2.exception() is None and t2.result().command_opcode != 0 and t2.result().command_opcode == _CMDS[2].op_code
 
 
+@harness(pre=['0 <= which <= 2 and 0 <= queued <= 1'], family='host-serialisation', twin=True, kernels=K_HOST, timeout=(60, 200),
+         bounds='the transport refuses a command (the sink raises while the command is written; which of three commands is symbolic), optionally with a second caller already queued: the failing caller gets the error, nothing stays pending, and the other / a later command is sent and completed by its own answer')
+def host_write_error_releases_the_command_slot(which: int, queued: int) -> bool:
+    which, queued = C(which, 0, 2), C(queued, 0, 1)
+    with detloop.running() as loop:
+        with untraced():
+            h = bhost.Host()
+            h.ready = True
+            sink = _CtlSink()
+            fail = [True]
+
+            def on_packet(data):
+                if fail[0]:
+                    fail[0] = False
+                    raise OSError('write failed')
+                sink.cmds.append(data)
+            sink.on_packet = on_packet
+            h.set_packet_sink(sink)
+        t0 = loop.create_task(h.send_command(_CMDS[which]()))
+        t1 = loop.create_task(h.send_command(_CMDS[(which + 1) % 3]())) if queued else None
+        loop.run_ready()
+        if not t0.done() or t0.exception() is None:
+            return False
+        if h.pending_command is not None and not queued:
+            return False
+        if t1 is None:
+            t1 = loop.create_task(h.send_command(_CMDS[(which + 1) % 3]()))
+            loop.run_ready()
+        if len(sink.cmds) != 1:
+            return False            # the next command never reached the controller: the slot was not released
+        h.on_packet(_cc(_CMDS[(which + 1) % 3].op_code))
+        loop.run_ready()
+        return t1.done() and t1.exception() is None and t1.result().command_opcode == _CMDS[(which + 1) % 3].op_code
+
+
 # ------------------------------------------------------------------------------------------
 # procedures: PENDING is followed by the completion event
 def _events(sink, cls):
@@ -345,6 +380,29 @@ def procedure_concludes(x: int, proc: str, transport: str) -> bool:
         if status != 0:
             return True
         return len(_events(sink, done_cls)) == 1
+
+
+@harness(pre=['0 <= allow <= 1 and 0 <= role <= 1'], family='procedures', twin=True, timeout=(90, 300),
+         kernels=K_CTL + ('bumble.controller.Controller.on_hci_create_connection_command', 'bumble.controller.Controller.on_hci_accept_connection_request_command',
+                          'bumble.controller.Controller.on_classic_connection_complete'),
+         bounds='BR/EDR connection set-up between two virtual controllers: Create Connection with role switch allowed or not, answered by Accept as central or as peripheral (Reject Connection Request is not implemented by the virtual controller and is answered UNKNOWN_HCI_COMMAND: outside): BOTH hosts receive exactly one Connection Complete (success on both or an error on both)')
+def classic_setup_concludes_on_both_sides(allow: int, role: int) -> bool:
+    allow, role = C(allow, 0, 1), C(role, 0, 1)
+    with detloop.running() as loop:
+        with untraced():
+            c, peer, sink = fresh_controller(loop)
+            psink = _HostSink()
+            peer.host = psink
+        c.on_hci_command_packet(hci.HCI_Create_Connection_Command(bd_addr=peer.public_address, packet_type=0xCC18, page_scan_repetition_mode=1, reserved=0, clock_offset=0, allow_role_switch=allow))
+        _settle(loop)
+        if not _events(psink, hci.HCI_Connection_Request_Event):
+            return False
+        peer.on_hci_command_packet(hci.HCI_Accept_Connection_Request_Command(bd_addr=c.public_address, role=hci.Role.CENTRAL if role == 0 else hci.Role.PERIPHERAL))
+        _settle(loop)
+        a, b = _events(sink, hci.HCI_Connection_Complete_Event), _events(psink, hci.HCI_Connection_Complete_Event)
+        if len(a) != 1 or len(b) != 1:
+            return False
+        return (a[0].status == 0) == (b[0].status == 0)
 
 
 def conditions():
